@@ -50,27 +50,30 @@ def confirm(patch, demo, tests):
     print(json.dumps(out, indent=1))
     return out
 def run(patch, ids):
-    st = sh("git -C /repo status --porcelain")
-    if st.stdout.strip():
-        raise SystemExit("/repo not clean")
-    r = sh("git -C /repo apply %s" % patch)
-    if r.returncode != 0:
-        raise SystemExit("patch does not apply: " + r.stderr)
+    """apply the patch in a scratch worktree of /repo's HEAD (VERIF_REPO points the checks at it; /repo itself is not touched)"""
+    wt = tempfile.mkdtemp(prefix="seedrun_", dir="/tmp")
+    os.rmdir(wt)
+    sh("git -C /repo worktree add -q --detach %s HEAD" % wt)
     res = {}
     try:
+        r = sh("git -C %s apply %s" % (wt, patch))
+        if r.returncode != 0:
+            raise SystemExit("patch does not apply: " + r.stderr)
         for pid in ids:
-            env = dict(os.environ, VERIF_SEED=os.environ.get("VERIF_SEED", "0"))
+            env = dict(os.environ, VERIF_SEED=os.environ.get("VERIF_SEED", "0"), VERIF_REPO=wt)
             r = subprocess.run([os.path.join(VERIF, "check"), pid], capture_output=True, text=True, cwd=VERIF, env=env)
             viol = [l for l in r.stdout.splitlines() if l.startswith("VIOLATION")]
             what = [l.strip() for l in r.stdout.splitlines() if l.strip().startswith("what:")]
             res[pid] = dict(rc=r.returncode, violations=len(viol), first=what[:2], tail=r.stdout.strip().splitlines()[-1:] if r.stdout.strip() else r.stderr[-300:])
     finally:
-        sh("git -C /repo checkout -- .")
+        sh("git -C /repo worktree remove --force %s" % wt)
+        shutil.rmtree(wt, ignore_errors=True)
         # restore evidence of the unchanged tree
         sh("git -C %s checkout -- evidence" % VERIF)
-        build("/repo")
     print(json.dumps(res, indent=1))
     return res
+
+
 if __name__ == "__main__":
     if sys.argv[1] == "confirm":
         confirm(sys.argv[2], sys.argv[3], sys.argv[4:])
